@@ -579,6 +579,8 @@ def gen_layout(seed, tier, focus):
     size = max(56, ch.pick("config", "size", [56, 57, 100, segk, segk + 1, 2 * segk, 3 * segk - 1, 4 * segk + 1, 7 * segk, 1000, 8000]))
     if segk <= 4 and size > 400:
         size = 400
+    if size > 250 * segk:
+        size = 250 * segk + 1          # (thousands of tiny segments cost minutes of wall time and add nothing)
     nservers = ch.randint("config", "nservers", 1, n + 3)
     # placement: every share somewhere, some twice, some servers several shares
     placement = []
@@ -636,8 +638,13 @@ def gen_layout(seed, tier, focus):
             if style == "tight":
                 kind = "stall"
             meth = ch.pick(F, ("fmeth", j), ["get_buckets", "read", "read", "read"])
-            faults.append([kind, ch.randrange(F, ("fsrv", j), nservers), meth, ch.randint(F, ("fnth", j), 1, 6),
-                           ch.pick(F, ("fsecs", j), [0.5, 5.0, 11.0, 30.0, 300.0])])
+            fl_ = [kind, ch.randrange(F, ("fsrv", j), nservers), meth, ch.randint(F, ("fnth", j), 1, 6),
+                   ch.pick(F, ("fsecs", j), [0.5, 5.0, 11.0, 30.0, 300.0])]
+            if kind == "error" and ch.chance(F, ("fevery", j), 0.35):
+                # a server that goes bad and stays bad (every call from the nth on), possibly only during a later read
+                fl_[3] = ch.randint(F, ("fnth-every", j), 1, 14)
+                fl_.append(True)
+            faults.append(fl_)
         if (focus == "C46" and ch.chance(F, "badseg", 0.5)) or False:
             nseg = (size + segk - 1) // segk
             cfg["badseg"] = ch.randrange(F, "badsegn", nseg)
@@ -655,6 +662,11 @@ def gen_layout(seed, tier, focus):
         g_ = ch.pick("workload", "guessprobe-g", [16, 16, 96]) if segk > 96 else 16
         cfg["knobs"]["guess_seg"] = g_
         ops[0] = ["read", min(size - 1, ch.pick("workload", "guessprobe-off", [g_, 2 * g_ + 1, 3 * g_ + 5, 5 * g_])), None, 0.0, False]
+    if focus == "C03" and ch.chance("workload", "c03-follow", 0.5):
+        # later reads through the same node (shares located while the node was idle must not be forgotten)
+        for i in range(ch.randint("workload", "c03-nfollow", 1, 2)):
+            off = ch.pick("workload", ("c03-foff", i), [0, 0, segk, 2 * segk, size - 1])
+            ops.append(["read", min(off, size - 1), ch.pick("workload", ("c03-fsz", i), [None, 1, segk]), 0.0, True])
     if focus == "C46":
         for i in range(ch.randint("workload", "nfollow", 1, 3)):
             off = ch.pick("workload", ("foff", i), [0, 0, segk, 2 * segk, size - 1])
@@ -877,10 +889,11 @@ def exec_layout(case):
                     install_read_tamper(g, servers[srv].name, nth, tp, probe)
                     faulted.add(servers[srv].name)
                 continue
-            kind, srv, meth, nth, secs = fl
+            kind, srv, meth, nth, secs = fl[:5]
             if srv >= len(servers):
                 continue
-            g.net.add_fault({"kind": kind, "callee": servers[srv].name, "caller": rd.sim_name, "method": meth, "nth": nth, "secs": secs})
+            g.net.add_fault({"kind": kind, "callee": servers[srv].name, "caller": rd.sim_name, "method": meth, "nth": nth, "secs": secs,
+                             "every": bool(len(fl) > 5 and fl[5])})
             if kind != "stall":
                 # a stall ends: that server "answers late" and still counts as answering (C03)
                 faulted.add(servers[srv].name)
@@ -986,7 +999,7 @@ def exec_layout(case):
                         bad("C02", "prefix", "bytes delivered before the error are not a prefix of the range")
                     if touches_bad:
                         continue
-                    if len(good_unfaulted) >= k and wave == "first":
+                    if len(good_unfaulted) >= k and (wave == "first" or focus == "C03"):
                         bad("C03", "unavailable", "read(%r,%r) failed with %s although %d distinct intact shares (k=%d) sit on servers that received no fault (muts=%r faults=%r placement=%r)" % (
                             off, sz, err_name(r), len(good_unfaulted), k, case.get("muts"), case.get("faults"), cfg["placement"]),
                             sig="C03.unavailable." + err_name(r))
